@@ -1046,3 +1046,4 @@ def run(chk, facts, tier, only=None):
         chk.include(c11, "C11.R2", "C12.R8", facts)
         import c15
         chk.include(c15, "C15.R3", "C12.R9", facts)     # exported Rust types: the derive sorts fields by the id of the label it emits
+        chk.include(c11, "C11.R3", "C12.R10", facts)    # numeric labels and numbers are printed in a form that re-lexes to the same number
